@@ -83,8 +83,10 @@ void AddTensorMatrix(tensor *t, size_t row, size_t col)
 void DelTensor(tensor** t)
 {
   size_t i;
-  for(i = 0; i < (*t)->order; i++)
-    DelMatrix(&(*t)->m[i]);
+  for(i = 0; i < (*t)->order; i++){
+    if((*t)->m[i] != NULL) /* a block never created with NewTensorMatrix is still NULL */
+      DelMatrix(&(*t)->m[i]);
+  }
   free((*t)->m);
   free((*t));
 }
